@@ -191,6 +191,7 @@ PROPS = {
             {"pkg": "internal/corerad", "run": "TestVerif_C01adv",
              "files": ["shared/zz_verif_doc_test.go", "corerad/zz_verif_C12_test.go", "corerad/zz_verif_sim_test.go", "corerad/zz_verif_adv_test.go", "corerad/zz_verif_mon_test.go",
                        "corerad/zz_verif_C06_test.go", "corerad/zz_verif_C04_test.go", "corerad/zz_verif_C17_test.go", "corerad/zz_verif_C01adv_test.go"]},
+            {"pkg": "internal/plugin", "run": "TestVerif_C01pref64", "files": ["plugin/zz_verif_pref64_test.go"], "shards": {"quick": 1, "thorough": 2}},
         ],
         "level": "exploration",
         "quick": {"shards": 8},
@@ -682,3 +683,16 @@ PROPS["C20"]["rule"] += " The error Serve returns must be the one of the failure
 PROPS["C13"]["rule"] += " OS part: interface indices up to 2^31 - 1, address prefix lengths also 0, 1, 63, 65, 127."
 
 PROPS["C11"]["rule"] += " Several-dialers sub-check (1 500 / 200 000 cases): 1..4 interfaces, each with its own Dialer and 1..4 connections ended by link changes, running at the same time on one State: every interface's setting is off while it holds a connection and back at its own previous value when its Dial returns."
+
+PROPS["C06"]["rule"] += " While a connection lives, two consecutive multicast RAs are never further apart than max_interval (to one second) + 1 s + 3 s (+ twice the slowest transmission): a lost tick of the periodic timer shows for any min/max pair (one history in six runs on for 100..400 s); after the stop only the zero-lifetime RA of a termination is exempt from the spacing."
+PROPS["C07"]["rule"] += " Everything delivered to a connection that lives on for another second must be read (the other rules start from what the listener read); messages_received_total is compared for all four message types."
+PROPS["C09"]["rule"] += " The monitor's run without invalid messages is itself judged against the script (every valid message delivered before the stop reaches the consumer), so that the differential comparison is not the implementation agreeing with itself."
+PROPS["C10"]["rule"] += " A task that has returned must not leave goroutines blocked behind it (the bubble's deadlock report); EPERM / EACCES are fatal also on the initial RA."
+PROPS["C11"]["rule"] += " On an advertising interface a task never starts on a connection for which autoconfiguration was not disabled first."
+PROPS["C20"]["rule"] += " A signal first and failures only while stopping: success or that error (both clauses apply). A task that ends by itself after the cause was not cancelled: violation. Readiness and task-not-run rules also apply when nothing ever ends the server."
+PROPS["C04"]["rule"] += " With a configured lifetime of 0 on a non-forwarding interface a misconfiguration report is neither demanded nor forbidden."
+
+PROPS["C01"]["rule"] += " PREF64 cap on its own (through the configuration 3 x max_interval never nears 65 528 s): NewPREF64 for every whole second 0..44 000 s, the nanoseconds around each edge, and 5 000 / 500 000 random intervals up to 100 000 s against the reference formula."
+
+PROPS["C08"]["rule"] += " One event in six before the stop is a link event (the interface is re-initialised, the final RA belongs on the connection that is live then - finding F26); nothing new is written to a connection once the next one exists."
+PROPS["C06"]["rule"] += " Enumeration bursts-on-every-tick: crowds of 17, 40, 60 unicast solicitations at, 1 ns before and 1 ns after each of 12 consecutive periodic ticks (max_interval 4, 5, 8 s)."
